@@ -70,6 +70,7 @@ fn finish(tier: Tier, rep: &mut Report) {
         ("observed_431", 20),
         ("observed_no_431_because_client_limit_below_42", 3),
         ("settings_mode[never]", 50),
+        ("late_settings_applied_while_held", 50),
     ] {
         if rep.get(k) < floor {
             rep.inconclusive(format!("{} = {} below floor {}", k, rep.get(k), floor));
@@ -127,6 +128,8 @@ enum Kind {
 
 #[derive(Debug, Clone, Copy, PartialEq, Eq, Hash)]
 enum SettingsMode {
+    /// SETTINGS arrive after the stream object exists and before the send under test (send direction)
+    Late,
     /// the raw peer's SETTINGS (with its limit) are applied before the send / 431
     Applied,
     /// the raw peer's control stream never carries SETTINGS: protocol default (unlimited) in force
@@ -184,6 +187,13 @@ fn normalise(mut c: Scn) -> Option<Scn> {
         if c.kind == Kind::Trailers && c.mode == SettingsMode::Applied && c.peer_limit < own_head(c.h3_server) {
             return None;
         }
+        if c.mode == SettingsMode::Late && c.kind == Kind::Head && !c.h3_server {
+            // a client's request stream does not exist before its head is sent
+            return None;
+        }
+    }
+    if c.recv && c.mode == SettingsMode::Late {
+        return None;
     }
     Some(c)
 }
@@ -204,7 +214,7 @@ fn run_scn(c: &Scn, seed: u64, rep: &mut Report) {
     rep.evaluations += 1;
     rep.count("scenarios");
     rep.sig(hash64(&(c.recv, c.h3_server, c.kind, c.limit, c.s, c.nfields, c.mode, c.peer_limit)));
-    rep.count(&format!("settings_mode[{}]", if c.mode == SettingsMode::Never { "never" } else { "applied" }));
+    rep.count(&format!("settings_mode[{}]", match c.mode { SettingsMode::Never => "never", SettingsMode::Applied => "applied", SettingsMode::Late => "late(after the stream exists, before the send)" }));
     if c.s == c.limit && c.recv || (!c.recv && c.s == c.peer_limit) {
         rep.count("size_exactly_at_limit");
     }
@@ -221,15 +231,26 @@ fn run_scn(c: &Scn, seed: u64, rep: &mut Report) {
     let net = sim::new_net(cfg);
     let h3_side = if c.h3_server { SERVER } else { CLIENT };
     let raw_side = raw::other(h3_side);
+    let raw_control;
     {
         let mut n = lock(&net);
         raw::mark_raw(&mut n, raw_side);
         let id = n.raw_open(raw_side, false);
         match c.mode {
             SettingsMode::Applied => n.raw_write(raw_side, id, &raw::control_preamble(&[(rf::S_MAX_FIELD_SECTION_SIZE, c.peer_limit)])),
-            SettingsMode::Never => n.raw_write(raw_side, id, &[0x00]),
+            SettingsMode::Never | SettingsMode::Late => n.raw_write(raw_side, id, &[0x00]),
         }
+        raw_control = id;
     }
+    // Late: the application is held right before the send under test; SETTINGS arrive meanwhile
+    let hold: Option<&'static str> = if c.mode == SettingsMode::Late {
+        Some(match c.kind {
+            Kind::Head => "send_response",
+            Kind::Trailers => "send_trailers",
+        })
+    } else {
+        None
+    };
     let probe = Probe::new(&net);
     let mut sched = Sched::new(net.clone(), rng.next());
     let sp = sched.spawner.clone();
@@ -247,7 +268,7 @@ fn run_scn(c: &Scn, seed: u64, rep: &mut Report) {
         }
         let sopts = ServerOpts {
             cfg: SrvCfg { max_field_section_size: Some(c.limit), grease: Some(false), ..Default::default() },
-            default_plan: RespPlan { resp, ..Default::default() },
+            default_plan: RespPlan { resp, hold, ..Default::default() },
             ..Default::default()
         };
         sched.spawn("s:conn", apps::server_main::<Bytes>(net.clone(), sopts, probe.clone(), sp));
@@ -261,7 +282,7 @@ fn run_scn(c: &Scn, seed: u64, rep: &mut Report) {
         }
         let copts = ClientOpts {
             cfg: CliCfg { max_field_section_size: Some(c.limit), grease: Some(false), ..Default::default() },
-            reqs: vec![ReqPlan { req, ..Default::default() }],
+            reqs: vec![ReqPlan { req, hold, ..Default::default() }],
             wait_gate: true,
             ..Default::default()
         };
@@ -323,6 +344,26 @@ fn run_scn(c: &Scn, seed: u64, rep: &mut Report) {
     if sched.run(3_000_000) == RunEnd::StepCap {
         rep.inconclusive("step cap (phase 2)");
         return;
+    }
+    if c.mode == SettingsMode::Late {
+        // phase 3: the stream exists and the application is held before the send: now the peer's
+        // SETTINGS arrive and are applied, then the send goes ahead
+        let held = probe.open().values().any(|(op, _)| *op == "idle(held by the monitor)");
+        if !held {
+            rep.count("late_settings_hold_not_reached");
+            return;
+        }
+        rep.count("late_settings_applied_while_held");
+        sched.add_script(vec![raw::step_write(raw_side, raw_control, rf::settings_frame(&[(rf::S_MAX_FIELD_SECTION_SIZE, c.peer_limit)]))]);
+        if sched.run(400_000) == RunEnd::StepCap {
+            rep.inconclusive("step cap (phase 3)");
+            return;
+        }
+        probe.gate2_open();
+        if sched.run(3_000_000) == RunEnd::StepCap {
+            rep.inconclusive("step cap (phase 4)");
+            return;
+        }
     }
     if let Some((t, p)) = sched.first_panic() {
         viol(rep, &format!("panic[{} {}]", p.file(), p.msg_key()), format!("task {}: {} at {}", t, p.msg, p.loc), &case);
@@ -414,7 +455,7 @@ fn run_scn(c: &Scn, seed: u64, rep: &mut Report) {
             (Kind::Head, false) => "send_request",
             (Kind::Trailers, _) => "send_trailers",
         };
-        let in_force = if c.mode == SettingsMode::Applied { c.peer_limit } else { u64::MAX };
+        let in_force = if c.mode == SettingsMode::Never { u64::MAX } else { c.peer_limit };
         let ok = c.s <= in_force;
         rep.count(if ok { "expect[send ok]" } else { "expect[send refuse]" });
         match (ok, find(op)) {
@@ -428,11 +469,13 @@ fn run_scn(c: &Scn, seed: u64, rep: &mut Report) {
             (false, other) => viol(rep, &format!("oversized-send-accepted[{}]", op), format!("{}: section of {} bytes, peer limit in force {}: {:?}", op, c.s, in_force, other.map(short)), &case),
         }
         // wire: no HEADERS frame larger than the limit in force; and the section under test has size s
-        for f in &headers_out {
+        for (fi, f) in headers_out.iter().enumerate() {
             match size_of(f) {
                 None => viol(rep, "HEADERS-not-decodable", "reference cannot decode a HEADERS frame h3 wrote".into(), &case),
                 Some((sz, _)) => {
                     rep.count("wire_headers_measured");
+                    // Late: what was written before the hold was written before the SETTINGS arrived
+                    let in_force = if c.mode == SettingsMode::Late && c.kind == Kind::Trailers && fi == 0 { u64::MAX } else { in_force };
                     if sz > in_force {
                         viol(rep, "oversized-HEADERS-on-the-wire", format!("a HEADERS frame of {} bytes was written while the peer's limit in force is {}", sz, in_force), &case);
                     }
@@ -516,6 +559,8 @@ fn run_case(gen: &str, index: u64, seed: u64, _tier: Tier, rep: &mut Report) {
                     run_scn(&scn, rng.next(), rep);
                     let scn = Scn { recv, h3_server, kind, limit: (1 << 62) - 1, s, nfields: nf, mode: SettingsMode::Never, peer_limit: l };
                     run_scn(&scn, rng.next(), rep);
+                    let scn = Scn { recv, h3_server, kind, limit: (1 << 62) - 1, s, nfields: nf, mode: SettingsMode::Late, peer_limit: l };
+                    run_scn(&scn, rng.next(), rep);
                 }
             }
         }
@@ -530,7 +575,11 @@ fn run_case(gen: &str, index: u64, seed: u64, _tier: Tier, rep: &mut Report) {
                 0 => (l as i128 + rng.below(7) as i128 - 3).max(0) as u64,
                 _ => rng.below(l.min(30_000) * 2 + 400),
             };
-            let mode = if rng.chance(1, 5) { SettingsMode::Never } else { SettingsMode::Applied };
+            let mode = match rng.below(10) {
+                0 | 1 => SettingsMode::Never,
+                2 | 3 if !recv => SettingsMode::Late,
+                _ => SettingsMode::Applied,
+            };
             let scn = if recv {
                 Scn { recv, h3_server, kind, limit: l, s, nfields: 1 + rng.usize(8), mode, peer_limit: *rng.pick(&[0u64, 41, 42, 43, 1000, (1 << 62) - 1]) }
             } else {
